@@ -63,6 +63,10 @@ pub enum Mode {
     /// keeps running (highest priority first) unless its k-th arrival at an interesting point is
     /// listed in `preempt`, in which case it drops to the lowest priority
     Points { prio: Vec<u8>, preempt: Vec<u16>, all_points: bool },
+    /// context-switch-bounded schedule: thread `start` runs first; at the listed arrivals at
+    /// interesting points the running thread is preempted in favour of the given thread; when the
+    /// running thread finishes or blocks, the most recently preempted thread resumes (LIFO)
+    Switch { start: u8, switches: Vec<(u16, u8)>, all_points: bool },
 }
 
 #[derive(Clone, Debug, Serialize, Deserialize)]
@@ -263,6 +267,9 @@ pub fn interesting(name: &str) -> bool {
             | "delete_orphan.before_unlink"
             | "quarantine_orphans.before_rename"
             | "delete_orphans.intents"
+            | "cas.open_blob"
+            | "cas.rename_blob"
+            | "cas.unlink_blob"
     )
 }
 
@@ -429,6 +436,7 @@ pub fn execute(case: &SchedCase, lenses: SLenses, stall: &mut bool) -> R<Execute
         _ => vec![0; nt],
     };
     let mut arrivals: u16 = 0;
+    let mut sw_stack: Vec<usize> = Vec::new();
     let changes: Vec<usize> = match &case.mode {
         Mode::Pct { changes, .. } => changes.iter().map(|c| *c as usize).collect(),
         _ => vec![],
@@ -508,7 +516,7 @@ pub fn execute(case: &SchedCase, lenses: SLenses, stall: &mut bool) -> R<Execute
         }
         // classification
         let in_commit_window = |w: &WState| matches!(w, WState::At { name, .. } if matches!(*name, "commit.before_apply" | "apply_put.intents" | "apply_put.state_w" | "apply_put.wal"));
-        let in_read_window = |w: &WState| matches!(w, WState::At { name, .. } if *name == "read.before_blob_open");
+        let in_read_window = |w: &WState| matches!(w, WState::At { name, .. } if *name == "read.before_blob_open" || *name == "cas.open_blob");
         let lockers = workers.iter().enumerate().filter(|(i, w)| held[*i] != 0 || matches!(w, WState::At { want, .. } if *want != WANT_NONE)).count();
         if lockers >= 2 {
             flags.insert("two_workers_at_locks");
@@ -542,6 +550,59 @@ pub fn execute(case: &SchedCase, lenses: SLenses, stall: &mut bool) -> R<Execute
                     last.filter(|l| enabled.contains(l)).unwrap_or(enabled[0])
                 }
             },
+            Mode::Switch { start, switches, all_points } => {
+                let cur = match last {
+                    None => {
+                        let st = (*start as usize).min(nt - 1);
+                        if enabled.contains(&st) {
+                            Some(st)
+                        } else {
+                            None
+                        }
+                    }
+                    Some(l) => {
+                        let mut target = None;
+                        if let WState::At { name, .. } = &workers[l] {
+                            if *all_points || interesting(name) {
+                                if let Some((_, t)) = switches.iter().find(|(a, _)| *a == arrivals) {
+                                    let t = (*t as usize).min(nt - 1);
+                                    if t != l && enabled.contains(&t) {
+                                        target = Some(t);
+                                    }
+                                }
+                                arrivals += 1;
+                            }
+                        }
+                        match target {
+                            Some(t) => {
+                                sw_stack.push(l);
+                                Some(t)
+                            }
+                            None => {
+                                if enabled.contains(&l) {
+                                    Some(l)
+                                } else {
+                                    None
+                                }
+                            }
+                        }
+                    }
+                };
+                match cur {
+                    Some(c) => c,
+                    None => {
+                        // running thread finished or is blocked: resume the most recently preempted enabled thread
+                        let mut pick = None;
+                        while let Some(c) = sw_stack.pop() {
+                            if enabled.contains(&c) {
+                                pick = Some(c);
+                                break;
+                            }
+                        }
+                        pick.unwrap_or(enabled[0])
+                    }
+                }
+            }
             Mode::Points { preempt, all_points, .. } => {
                 if let Some(l) = last {
                     if let WState::At { name, .. } = &workers[l] {
@@ -578,10 +639,10 @@ pub fn execute(case: &SchedCase, lenses: SLenses, stall: &mut bool) -> R<Execute
                 }
             }
         }
-        if workers.iter().enumerate().any(|(i, w)| i != pick && in_read_window(w)) && matches!(&workers[pick], WState::At { name, .. } if name.ends_with(".applied") || name.ends_with(".delete")) {
+        if workers.iter().enumerate().any(|(i, w)| i != pick && in_read_window(w)) && matches!(&workers[pick], WState::At { name, .. } if name.ends_with(".applied") || name.ends_with(".delete") || *name == "cas.unlink_blob") {
             flags.insert("write_applied_during_read_window");
         }
-        if workers.iter().enumerate().any(|(i, w)| i != pick && in_commit_window(w)) && matches!(&workers[pick], WState::At { name, .. } if name.ends_with(".delete") || name.ends_with("before_unlink")) {
+        if workers.iter().enumerate().any(|(i, w)| i != pick && in_commit_window(w)) && matches!(&workers[pick], WState::At { name, .. } if name.ends_with(".delete") || name.ends_with("before_unlink") || *name == "cas.unlink_blob") {
             flags.insert("unlink_during_commit_window");
         }
         order.push(pick as u8);
@@ -798,6 +859,7 @@ pub fn meta_from(case: &SchedCase, ex: &Executed) -> CaseMeta {
         Mode::Pct { .. } => "mode_pct",
         Mode::Exact => "mode_exact",
         Mode::Points { .. } => "mode_points",
+        Mode::Switch { .. } => "mode_switch",
     });
     m.class(&format!("threads_{}", case.prog.threads.len()));
     m.count("steps", ex.order.len() as u64);
